@@ -136,6 +136,23 @@ def run(ctx):
             ctx.ob('C07.D1', where(t), 'guid-from-hex-of-OK', ok,
                    'the GUID must be the hex-decoded argument of OK',
                    nontrivial=False)
+            # "valid hexadecimal GUID": the emptiness test must be made on
+            # the very bytes that are decoded - unhexlify(b'') succeeds, so
+            # `OK` followed by blanks only would otherwise authenticate
+            decoded = [ev[3][3][0] for ev in iter_events(t.path.trace)
+                       if ev[0] == 'setattr' and ev[2] == 'guid' and
+                       kind(ev[3]) == 'call' and
+                       ev[3][1] == 'binascii.unhexlify' and ev[3][3]]
+            if decoded:
+                from .codec_rules import strip_sites
+                d0 = strip_sites(decoded[0])
+                tested = any(pol and strip_sites(c) == d0
+                             for c, pol in t.path.cond)
+                ctx.ob('C07.D1', where(t), 'guid-nonempty-as-decoded', tested,
+                       'the bytes handed to unhexlify (%s) are not the bytes '
+                       'that were tested for emptiness: an OK whose argument '
+                       'is white space only decodes to an empty GUID and the '
+                       'client sends BEGIN' % term_str(decoded[0])[:60])
     # D2 -----------------------------------------------------------------------
     # whether the transport can pass descriptors is a fact about the
     # transport: until OK arrived (no GUID yet) no server line may change it
